@@ -136,7 +136,9 @@ class Evaluator:
         max_inline_depth: int = 4,
         auto_inline_trivial: bool = True,
         split_bool: bool = True,
+        keep: Sequence[str] = (),
     ):
+        self.keep = set(keep)  # functions that stay visible as calls whatever their body looks like
         self.cg = cg
         self.program: Program = cg.program
         self.func = func
@@ -246,6 +248,8 @@ class Evaluator:
             return bool(c[1])
         if c in st.assume:
             return st.assume[c]
+        if k == "cmp" and c[1] == "is" and NONE in (c[2], c[3]) and (c[3] if c[2] == NONE else c[2]) in getattr(self, "_nonnull", ()):
+            return False  # an element of a list declared to hold objects of a class is not None
         if k == "bool":
             vals = [self._truth(st, x) for x in c[2]]
             if c[1] == "and":
@@ -718,6 +722,16 @@ class Evaluator:
             if is_for:
                 for n in tnames:
                     body_st.env[n] = ("sym", f"{n}∈{lid}")
+                if len(tnames) == 1:
+                    try:
+                        te = self._tenv()
+                        et = te._iter_elem(node.iter, te.type_of(node.iter))
+                    except Exception:
+                        et = None
+                    if et is not None and et[0] == "cls" and et[1] in self.program.classes:
+                        if not hasattr(self, "_nonnull"):
+                            self._nonnull = set()
+                        self._nonnull.add(("sym", f"{tnames[0]}∈{lid}"))
                 if isinstance(node.target, (ast.Attribute, ast.Subscript)):
                     raise Unrecognised("loop target is not a name")
                 # `for x in (y for y in IT if C)` visits the items of IT that satisfy C
@@ -828,6 +842,8 @@ class Evaluator:
             cands = list(node.targets)
         elif isinstance(node, ast.Attribute):
             cands = [node]
+        elif isinstance(node, ast.Call) and isinstance(node.func, ast.Name) and node.func.id == "setattr" and node.args:
+            return self._owner_of(node.args[0], attr)  # setattr(obj, "name", v) writes obj.name
         owners = set()
         stack = list(cands)
         while stack:
@@ -1061,6 +1077,9 @@ class Evaluator:
         if isinstance(e, ast.Lambda):
             return [(st, self._eval_lambda(st, e))]
         if isinstance(e, (ast.ListComp, ast.SetComp, ast.GeneratorExp, ast.DictComp)):
+            un = self._unroll_comp(st, e)
+            if un is not None:
+                return un
             return [(st, self._eval_comp(st, e))]
         if isinstance(e, ast.JoinedStr):
             # evaluate embedded expressions for their calls, value is opaque
@@ -1189,6 +1208,40 @@ class Evaluator:
             self._emit(st, "note", e, what="deferred", events=sink, free=free)
         return ("lambda", params, body)
 
+    def _unroll_comp(self, st: _State, e: ast.AST) -> Optional[List[Tuple[_State, Term]]]:
+        """[f(x) for x in (a, b)] over a short literal sequence is the list [f(a), f(b)]: evaluated item
+        by item (so the calls in f are ordinary events), like a for-loop over a literal tuple"""
+        if not isinstance(e, ast.ListComp) or len(e.generators) != 1 or e.generators[0].ifs or self._quiet:
+            return None
+        if self._ctx and self._ctx[-1] in ("lambda", "comp"):
+            return None
+        g = e.generators[0]
+        if any(isinstance(n, (ast.Lambda, ast.ListComp, ast.SetComp, ast.DictComp, ast.GeneratorExp, ast.NamedExpr)) for n in ast.walk(e.elt)):
+            return None
+        it = self._eval_quiet(st, g.iter)
+        items = self._literal_items(st, it)
+        if items is None or len(items) > 6:
+            return None
+        names = self._target_names(g.target)
+        saved = {n: st.env.get(n) for n in names}
+        states: List[Tuple[_State, List[Term]]] = [(st, [])]
+        for item in items:
+            nxt: List[Tuple[_State, List[Term]]] = []
+            for s, acc in states:
+                self._assign(s, g.target, item, e)
+                for s2, v in self._eval(s, e.elt):
+                    nxt.append((s2, acc + [v]))
+            states = nxt
+        out = []
+        for s, acc in states:
+            for n, v in saved.items():
+                if v is None:
+                    s.env.pop(n, None)
+                else:
+                    s.env[n] = v
+            out.append((s, self._fresh(s, ("list", tuple(acc)), e)))
+        return out
+
     def _eval_comp(self, st: _State, e: ast.AST) -> Term:
         from .types import _CompEnv
 
@@ -1300,6 +1353,12 @@ class Evaluator:
         return site, None
 
     def _apply(self, st: _State, e: ast.Call, fterm: Term, recv: Optional[Term], args: List[Term], kws: List[Tuple[str, Term]]) -> List[Tuple[_State, Term]]:
+        # getattr / setattr with a name that is known here are an attribute read / write
+        if fterm == ("name", "setattr") and len(args) == 3 and not kws and args[1][0] == "const" and isinstance(args[1][1], str):
+            self._store(st, args[0], args[1][1], args[2], e)
+            return [(st, NONE)]
+        if fterm == ("name", "getattr") and len(args) == 2 and not kws and args[1][0] == "const" and isinstance(args[1][1], str):
+            return [(st, self._read(st, args[0], args[1][1], e))]
         # calling a lambda term: substitute its parameters
         if fterm[0] == "lambda" and all(k in fterm[1][len(args):] for k, _ in kws) and len(args) + len(kws) == len(fterm[1]) and len({k for k, _ in kws}) == len(kws):
             from .terms import substitute
@@ -1334,6 +1393,8 @@ class Evaluator:
         site, dyn_name = self._dyn_site(e, site, fterm, recv)
         fname = _name_of(e.func) or ""
         short = dyn_name or fname.split(".")[-1]
+        if dyn_name is None and site.how == "ctor" and fterm[0] == "name" and fterm[1].split(".")[-1] in self.program.classes:
+            short = fterm[1].split(".")[-1]  # a class object held in a variable: the constructed class is known
         if dyn_name and fterm[0] == "attr":
             fname = "self." + dyn_name
         in_sub = bool(self._ctx) and self._ctx[-1] in ("lambda", "comp")
@@ -1347,11 +1408,27 @@ class Evaluator:
             and not any(k == "**" for k, _ in kws)
         ):
             tgt = site.targets[0]
-            if self.inline(tgt) or (self.auto_inline_trivial and self._trivial(tgt) and tgt.name != "__init__"):
+            if tgt.name in self.keep or tgt.qualname in self.keep:
+                pass
+            elif self.inline(tgt) or (self.auto_inline_trivial and self._trivial(tgt) and tgt.name != "__init__"):
                 return self._call_function(st, tgt, recv, args, dict(kws), e)
-            gbody = self._generator_as_genexp(tgt)
+            gbody = self._generator_as_genexp(tgt) if not (tgt.name in self.keep or tgt.qualname in self.keep) else None
             if gbody is not None:
                 return self._call_function(st, tgt, recv, args, dict(kws), e, body=gbody)
+        # inside a comprehension / lambda: a private single-expression helper is still the expression it returns
+        if (
+            in_sub
+            and len(site.targets) == 1
+            and site.how in ("exact", "plain", "super")
+            and self._depth < self.max_inline_depth
+            and not any(a[0] in ("star", "dstar") for a in args)
+            and not any(k == "**" for k, _ in kws)
+        ):
+            tgt = site.targets[0]
+            if not (tgt.name in self.keep or tgt.qualname in self.keep) and self._trivial(tgt) and tgt.name != "__init__" and (self.inline(tgt) or self.auto_inline_trivial):
+                val = self._inline_expression(st, tgt, recv, args, dict(kws))
+                if val is not None:
+                    return [(st, val)]
         # classify purity
         pure = False
         mods: Set[Tuple[str, str]] = set()
@@ -1445,6 +1522,44 @@ class Evaluator:
         ast.copy_location(ret, loop)
         ast.fix_missing_locations(ret)
         return [ret]
+
+    def _inline_expression(self, st: _State, tgt: FuncInfo, recv: Optional[Term], args: List[Term], kws: Dict[str, Term]) -> Optional[Term]:
+        """value of a single-`return <expr>` function applied to the given arguments, evaluated in place
+        (used inside comprehensions and lambdas, where statements cannot be run)"""
+        a = tgt.node.args
+        if a.vararg is not None or a.kwarg is not None or a.kwonlyargs:
+            return None
+        params = [x.arg for x in a.posonlyargs + a.args]
+        env: Dict[str, Term] = {}
+        if tgt.cls is not None and not tgt.is_static and tgt.outer is None:
+            if recv is None or not params:
+                return None
+            env[params[0]] = recv
+            params = params[1:]
+        if len(args) > len(params):
+            return None
+        for p_, v in zip(params, args):
+            env[p_] = v
+        for p_ in params[len(args):]:
+            if p_ in kws:
+                env[p_] = kws[p_]
+            else:
+                return None
+        if set(kws) - set(params):
+            return None
+        body = [x for x in tgt.node.body if not (isinstance(x, ast.Expr) and isinstance(x.value, ast.Constant))]
+        saved_env, saved_func = st.env, self._cur_func
+        st.env = env
+        self._cur_func = tgt
+        self._depth += 1
+        self._push_tenv(self.cg.env(tgt))
+        try:
+            return self._eval_quiet(st, body[0].value)
+        finally:
+            self._pop_tenv()
+            self._depth -= 1
+            self._cur_func = saved_func
+            st.env = saved_env
 
     def _call_function(self, st: _State, tgt: FuncInfo, recv: Optional[Term], args: List[Term], kws: Dict[str, Term], node: ast.AST, is_property: bool = False, body: Optional[List[ast.stmt]] = None) -> List[Tuple[_State, Term]]:
         """Inline `tgt`: evaluate its body in the caller's state with a fresh environment."""
